@@ -192,6 +192,50 @@ fn check_bail_out_insert(enc: &'static Encoding, content: &str, html: bool) -> O
     None
 }
 
+/// A handler on the `<meta charset>` element itself fails (after the built-in charset handler has
+/// announced the new encoding, before it is applied): whatever the bail-out handler appends must be
+/// in the encoding the sink has been told about at that moment.
+fn check_bail_out_on_meta(enc0: &'static Encoding, label: &str, content: &str, cut: Option<usize>) -> Option<String> {
+    let p = Prepared::new(Cfg {
+        adjust_charset: true,
+        fail_at: Some(1),
+        graceful_handler: true,
+        bail_out_handlers: 1,
+        bail_out_payload: Some((content.to_string(), true)),
+        ..Cfg::with(vec![HSpec { log: false, ..HSpec::obs(HKind::Element, "meta") }]).enc(enc0.name()).strict(false)
+    })
+    .ok()?;
+    let doc = format!("<meta charset={label}>x<p>y</p>");
+    let chunks: Vec<&[u8]> = match cut {
+        Some(c) => vec![&doc.as_bytes()[..c], &doc.as_bytes()[c..]],
+        None => vec![doc.as_bytes()],
+    };
+    let rr = run(&p, &chunks, true);
+    if rr.first_failure().is_none() {
+        return Some("the injected failure on the meta element did not happen".into());
+    }
+    // the encoding announced to the sink before the chunk that carries the payload
+    let mut announced = enc0.name().to_string();
+    let mut payload: Option<(Vec<u8>, String)> = None;
+    for e in &rr.sink {
+        match e {
+            SinkEv::SetEncoding(n) => announced = n.clone(),
+            SinkEv::Chunk(c) if payload.is_none() && !c.is_empty() && !c.starts_with(b"<") && !c.starts_with(b"\x01") => payload = Some((c.clone(), announced.clone())),
+            _ => {}
+        }
+    }
+    let Some((bytes, told)) = payload else { return Some(format!("no payload chunk in the sink: {:?}", lossy(&rr.out))) };
+    let told_enc = Encoding::for_label(told.as_bytes()).unwrap_or(enc0);
+    let want = told_enc.encode(content).0.into_owned();
+    if !bytes.starts_with(&want) {
+        return Some(format!(
+            "a handler on <meta charset={label}> failed: the bail-out handler's content {:?} reached the sink as {} while the sink had been told {} (encoding_rs: {})",
+            content, hex(&bytes), told, hex(&want)
+        ));
+    }
+    None
+}
+
 /// meta charset: at most one switch, only for later tokens, sink notified in between.
 fn check_meta(enc0: &'static Encoding, label: &str, second_label: Option<&str>, cuts: &[usize], scan_mode: bool, unit: &[u8]) -> Option<String> {
     check_meta_form(enc0, label, second_label, cuts, scan_mode, unit, false)
@@ -358,6 +402,7 @@ pub fn replay(case: &Value) -> Option<String> {
         }
         "insert" => check_insert(enc, case["content"].as_str()?, case["html"].as_bool()?),
         "bailout-insert" => check_bail_out_insert(enc, case["content"].as_str()?, case["html"].as_bool()?),
+        "bailout-on-meta" => check_bail_out_on_meta(enc, case["label"].as_str()?, case["content"].as_str()?, case["cut"].as_u64().map(|c| c as usize)),
         "meta" => {
             let cuts: Vec<usize> = serde_json::from_value(case["cuts"].clone()).ok()?;
             let unit = case["unit"].as_str().map(unhex).unwrap_or_else(|| vec![0xE9]);
@@ -563,6 +608,23 @@ pub fn run_check(ctx: &Ctx) -> i32 {
         }
     }
     ctx.level_done("(b) 7 contents x {html,text} x {element before / set_attribute / document-end append, streaming_before, bail-out handler append} x 36 encodings: inserted bytes == encoding_rs encode (NCRs for unmappable)");
+    // (b') a failing handler on the meta element itself
+    for enc0 in [encoding_rs::UTF_8, encoding_rs::WINDOWS_1252, encoding_rs::KOI8_R, encoding_rs::SHIFT_JIS] {
+        for l in ["windows-1251", "utf-8", "koi8-r", "shift_jis", "latin1", "gbk", "UTF-16", "bogus-label"] {
+            for c in ["\u{416}", "\u{e9}\u{20ac}", "\u{30a2}"] {
+                for cut in [None, Some(5usize), Some(14)] {
+                    ctx.exec(2);
+                    ctx.validated(1);
+                    if let Some(msg) = check_bail_out_on_meta(enc0, l, c, cut) {
+                        let case = json!({"kind": "bailout-on-meta", "encoding": enc0.name(), "label": l, "content": c, "cut": cut});
+                        let c2 = case.clone();
+                        ctx.violation(msg, case, &|| replay(&c2));
+                    }
+                }
+            }
+        }
+    }
+    ctx.level_done("(b') a handler on <meta charset=L> fails (4 initial encodings x 8 labels x 3 contents x 3 schedules): the bail-out handler's content arrives in the encoding the sink has been told");
     // (c) meta charset
     let labels = ["windows-1251", "utf-8", "UTF-16", "shift_jis", "latin1", "bogus-label", "koi8-r", "utf-16be", "iso-2022-jp", "replacement"];
     for enc0 in [encoding_rs::UTF_8, encoding_rs::WINDOWS_1252, encoding_rs::KOI8_R] {
